@@ -13,3 +13,4 @@ def rules(ctx):
     S.loop_completeness_rules(ctx)
     S.staged_root_rules(ctx)
     S.handle_close_rules(ctx)
+    S.state_writer_rules(ctx)
